@@ -87,11 +87,25 @@ structure Env where
   hashes : Hashes := default
   deriving Inhabited
 
-/-- outcome of running code: a result, a FAILWITH value, or any other runtime error / stuck state -/
+/-- outcome of running code.
+
+* `ok a` — a result;
+* `failed v` — `FAILWITH` was executed on `v`;
+* `rtfail` — a *runtime failure* of an instruction that Michelson defines to fail the operation on some well-typed
+  arguments: the result of an arithmetic instruction does not fit its type (`mutez` overflow / underflow of ADD, SUB,
+  MUL, …), a shift by more than 256 bits, an environment reading outside the range of its type.  pytezos raises;
+* `oof` — the fuel bound (loop iterations / nesting) was exhausted before the run ended;
+* `stuck` — no rule applies: the configuration is ill-typed (wrong stack shape, wrong argument types, an ill-formed
+  value).  `progress` (Proofs/InterpProgress.lean) shows a well-typed program on a well-typed stack never gets here;
+* `offguard` — only the reference semantics in guard mode returns it: `MAP` was applied to an *empty* list / map with a
+  body that changes the element type (the documented guard of C01: the open finding of pytezos). -/
 inductive Res (α : Type) where
   | ok (a : α)
   | failed (v : Val)
-  | err
+  | rtfail
+  | oof
+  | stuck
+  | offguard
   deriving Inhabited
 
 namespace Res
@@ -99,16 +113,41 @@ def bind {α β : Type} (r : Res α) (f : α → Res β) : Res β :=
   match r with
   | .ok a => f a
   | .failed v => .failed v
-  | .err => .err
+  | .rtfail => .rtfail
+  | .oof => .oof
+  | .stuck => .stuck
+  | .offguard => .offguard
 instance : Monad Res where
   pure := .ok
   bind := bind
 def map' {α β : Type} (f : α → β) (r : Res α) : Res β := r.bind fun a => .ok (f a)
 @[simp] theorem bind_ok {α β : Type} (a : α) (f : α → Res β) : (Res.ok a >>= f) = f a := rfl
 @[simp] theorem bind_failed {α β : Type} (v : Val) (f : α → Res β) : (Res.failed v >>= f) = Res.failed v := rfl
-@[simp] theorem bind_err {α β : Type} (f : α → Res β) : ((Res.err : Res α) >>= f) = Res.err := rfl
+@[simp] theorem bind_rtfail {α β : Type} (f : α → Res β) : ((Res.rtfail : Res α) >>= f) = Res.rtfail := rfl
+@[simp] theorem bind_oof {α β : Type} (f : α → Res β) : ((Res.oof : Res α) >>= f) = Res.oof := rfl
+@[simp] theorem bind_stuck {α β : Type} (f : α → Res β) : ((Res.stuck : Res α) >>= f) = Res.stuck := rfl
+@[simp] theorem bind_offguard {α β : Type} (f : α → Res β) : ((Res.offguard : Res α) >>= f) = Res.offguard := rfl
 @[simp] theorem pure_eq {α : Type} (a : α) : (pure a : Res α) = Res.ok a := rfl
 end Res
+
+@[simp] theorem map'_ok {α β : Type} (f : α → β) (a : α) : (Res.ok a).map' f = .ok (f a) := rfl
+@[simp] theorem map'_failed {α β : Type} (f : α → β) (v : Val) : (Res.failed v : Res α).map' f = .failed v := rfl
+@[simp] theorem map'_rtfail {α β : Type} (f : α → β) : (Res.rtfail : Res α).map' f = .rtfail := rfl
+@[simp] theorem map'_oof {α β : Type} (f : α → β) : (Res.oof : Res α).map' f = .oof := rfl
+@[simp] theorem map'_stuck {α β : Type} (f : α → β) : (Res.stuck : Res α).map' f = .stuck := rfl
+@[simp] theorem map'_offguard {α β : Type} (f : α → β) : (Res.offguard : Res α).map' f = .offguard := rfl
+@[simp] theorem rbind_ok {α β : Type} (a : α) (f : α → Res β) : (Res.ok a).bind f = f a := rfl
+@[simp] theorem rbind_failed {α β : Type} (v : Val) (f : α → Res β) : (Res.failed v : Res α).bind f = .failed v := rfl
+@[simp] theorem rbind_rtfail {α β : Type} (f : α → Res β) : (Res.rtfail : Res α).bind f = .rtfail := rfl
+@[simp] theorem rbind_oof {α β : Type} (f : α → Res β) : (Res.oof : Res α).bind f = .oof := rfl
+@[simp] theorem rbind_stuck {α β : Type} (f : α → Res β) : (Res.stuck : Res α).bind f = .stuck := rfl
+@[simp] theorem rbind_offguard {α β : Type} (f : α → Res β) : (Res.offguard : Res α).bind f = .offguard := rfl
+
+/-- a sub-evaluation that is not stuck / not outside the guard, given that the whole evaluation is not -/
+theorem bind_ne_stuck {α β : Type} {r : Res α} {f : α → Res β} (h : r.bind f ≠ .stuck) : r ≠ .stuck := by
+  intro e; subst e; exact h rfl
+theorem bind_ne_offguard {α β : Type} {r : Res α} {f : α → Res β} (h : r.bind f ≠ .offguard) : r ≠ .offguard := by
+  intro e; subst e; exact h rfl
 
 /-- the runtime type of a value = its class in pytezos (`type(item)`), annotations dropped -/
 def typeOf : Val → Ty
